@@ -12,6 +12,7 @@ import (
 	"math/big"
 	"os"
 	"strconv"
+	"time"
 
 	"github.com/cosmos/gogoproto/proto"
 )
@@ -177,6 +178,14 @@ func PanicMsg() string { return lastMsg }
 // MapOrder switches non-deterministic map iteration order on/off (engine only).
 func MapOrder(nondet bool) {}
 
+// Schedule switches the engine to concurrency mode: goroutines, channels, select and sync primitives run under a
+// deterministic scheduler whose decisions are explored like every other choice, with at most maxPreemptions
+// preemptive context switches per path. Natively the Go scheduler decides.
+func Schedule(maxPreemptions int) {}
+
+// Quiesce blocks until no other goroutine can run (engine); natively it sleeps briefly.
+func Quiesce() { time.Sleep(20 * time.Millisecond) }
+
 // Symbolic reports whether the harness runs under the symbolic engine.
 func Symbolic() bool { return false }
 
@@ -239,7 +248,7 @@ func DecodeInterface(bz []byte, ptr any) bool {
 
 // EncodeAny / DecodeAny: the opaque inverse-pair encoding for non-protobuf values (RLP-encoded receipts and
 // transactions). Engine only: natively the real encoders run, so these are never called.
-func EncodeAny(x any) []byte        { panic("verif.EncodeAny: engine only") }
+func EncodeAny(x any) []byte            { panic("verif.EncodeAny: engine only") }
 func DecodeAny(bz []byte, ptr any) bool { panic("verif.DecodeAny: engine only") }
 
 // SplitAmountDenom splits "<digits><denom>" (the rendering of one coin).
